@@ -23,6 +23,17 @@ CHECKS = {
   note="trusted: POSIX semantics of pthread mutex/condvar; the frozen field-class table in sa/props/c09.py "
        "(every pool field must be classified, else exit 2)",
   technique="static analysis: lockset dataflow + condition-variable predicate/wake-up rules on LLVM IR"),
+ "C10": dict(
+  text="Static cache tag/payload coherence (K9) for the only history-carrying state of the readers: a 4-state "
+       "dataflow over every function writing the meta reader's cached block proves no return leaves the payload "
+       "overwritten under the old tag; for the data reader's pointer caches a consistency dataflow (tag change / "
+       "free must be followed by replacement or NULL) plus a proof that the loading helper stores NULL through its "
+       "out-parameter before every failing return; cache-hit returns are guarded by the tag (and pointer); xattr "
+       "value readers seek back on every success path with the out-of-line flag; who-may-write rule over all "
+       "reader fields. Does not decide agreement of the three file-data APIs (value-level).",
+  note="trusted: the frozen cache table (payload -> tag) in sa/props/c10.py; anchors re-resolved on every run, a "
+       "vanished field is exit 2",
+  technique="static analysis: typestate dataflow over the CFG (cache coherence), must-pass-through and who-may-write rules on LLVM IR"),
 }
 
 NA_DEFAULT = "rules designed in DESIGN.md, not implemented yet (work in progress)"
